@@ -188,7 +188,8 @@ def body(chk, db, cfgname):
                     shp_ = loop_shape(f, ctx, j)
                     if shp_["var"] is not None and shp_["var"][:2] == it[:2]:
                         seen_loop = True
-                        if covers(shp_, act):
+                        from pv.paths import every_iteration
+                        if covers(shp_, act) and every_iteration(f, j, A) is not False:
                             walk_ok = True
             if not seen_loop:
                 raise AnalysisBroken("HamiltonianPart::prepare: the loop that advances the image iterator was not found")
